@@ -164,30 +164,20 @@ func ruleQRFormulas(c *Ctx) {
 		} else {
 			c.expectPoly(R6, "qr.setMasked/set-x", setCall.Pos(), n, setCall.Common().Args[0], "x")
 			c.expectPoly(R6, "qr.setMasked/set-y", setCall.Pos(), n, setCall.Common().Args[1], "y")
-			phi, ok := setCall.Common().Args[2].(*ssa.Phi)
-			if !ok {
-				c.Undecided(R6, "qr.setMasked/value", setCall.Pos(), "masked value is not selected per mask")
-			} else {
-				for k := int64(0); k < 8; k++ {
-					key := fmt.Sprintf("qr.setMasked/mask%d", k)
-					arm, err := PhiArm(n, fn, phi, nil, "mask", k)
-					if err != nil {
-						c.Undecided(R6, key, phi.Pos(), err.Error())
-						continue
-					}
-					// the arm value must be  val != C  (xor) with C the ISO condition
-					e := phi.Edges[arm]
-					bo, ok := e.(*ssa.BinOp)
-					if !ok || bo.Op != token.NEQ || !(bo.X == ssa.Value(fn.Params[2]) || bo.Y == ssa.Value(fn.Params[2])) {
-						c.Check(R6, key, e.Pos(), false, "val != ("+iso[k]+")", n.Norm(e).String())
-						continue
-					}
-					other := bo.Y
-					if bo.Y == ssa.Value(fn.Params[2]) {
-						other = bo.X
-					}
-					c.expectCond(R6, key, bo.Pos(), n.CondOf(other), iso[k])
-				}
+			// the written value as a condition over (val, x, y) for each mask number k: it must be
+			// val XOR (ISO condition k) - however the selection is written (a switch over the mask with
+			// one xor per arm, or one test of a helper that evaluates the mask condition)
+			maskP := fn.Params[3]
+			for k := int64(0); k < 8; k++ {
+				key := fmt.Sprintf("qr.setMasked/mask%d", k)
+				m := NewNormer(c.P)
+				m.Bind[fn.Params[0]], m.Bind[fn.Params[1]], m.Bind[fn.Params[2]] = "x", "y", "val"
+				m.env = append(m.env, map[ssa.Value]Poly{maskP: pConst(k)})
+				got := m.CondOf(setCall.Common().Args[2])
+				isoC := MustRefCond(iso[k])
+				val := &Cond{Kind: CBool, Name: "val"}
+				want := cOr(cAnd(val, cNot(isoC)), cAnd(cNot(val), isoC))
+				c.expectCondC(R6, key, setCall.Pos(), got, want)
 			}
 		}
 	}
@@ -211,7 +201,7 @@ func ruleQRFormulas(c *Ctx) {
 			}
 		}
 		eachInstr(fn, func(b *ssa.BasicBlock, ins ssa.Instruction) {
-			if bo, ok := ins.(*ssa.BinOp); ok && bo.Op == token.EQL {
+			if bo, ok := ins.(*ssa.BinOp); ok && (bo.Op == token.EQL || bo.Op == token.NEQ) {
 				if p, isP := bo.X.(*ssa.Parameter); isP && isIntType(p.Type()) {
 					if k, isK := constInt(bo.Y); isK && k == -1 {
 						n.Bind[p] = "mask"
